@@ -4,6 +4,7 @@ import (
 	"fmt"
 	"go/token"
 	"go/types"
+	"os"
 	"sort"
 	"strings"
 
@@ -137,6 +138,12 @@ func flagDiscipline(p *Prog, ch *types.Var, sendFn *ssa.Function, send ssa.Instr
 		return false, "sender has no guarded caller"
 	}
 	for _, e := range n.In {
+		// a promoted-method wrapper nobody calls is no caller
+		if cf := e.Caller.Func; cf != nil && cf.Synthetic != "" && !strings.HasSuffix(cf.Name(), "$bound") {
+			if cn := p.CG.Nodes[cf]; cn == nil || len(cn.In) == 0 {
+				continue
+			}
+		}
 		if e.Site == nil || !checkAt(e.Caller.Func, e.Site) {
 			return false, "caller " + fnName(e.Caller.Func) + " does not test " + flag.Name() + " under " + muClose.Name()
 		}
@@ -259,9 +266,15 @@ func ruleFIFO(fields ...string) func(c *Ctx) {
 			}
 			allowed := map[string]map[string]bool{}
 			for _, ff := range fifoTable[q] {
-				allowed[ff.Fn] = map[string]bool{}
+				nm := p.FnNameOf(ff.Fn)
+				if os.Getenv("RV_DEBUG") != "" {
+					fmt.Println("FIFO table", ff.Fn, "->", nm)
+				}
+				if allowed[nm] == nil {
+					allowed[nm] = map[string]bool{}
+				}
 				for _, x := range ff.Forms {
-					allowed[ff.Fn][x] = true
+					allowed[nm][x] = true
 				}
 			}
 			for _, st := range p.stores[f] {
